@@ -12,8 +12,10 @@ The handler is modelled over **parsed** messages: the input of a step is what th
 Outputs are the `transport.sendto` calls, kept structured (`Out`) for the theorems and serialised
 byte-exactly (`Out.bytes`) for the correspondence with the recording transport.
 
-`step` is total.  The only places where the real code could raise on a parsed message are the
-`int.to_bytes` calls of the answers; `raises` says when one of them overflows, `stepE` is the faithful
+`step` is total.  The only places where the **modelled** code could raise on a parsed message are the
+`int.to_bytes` calls of the answers (the log statements are not modelled: the `repr(pdu)` logged for a REJECT
+did raise for a payload that cannot be printed until `/repo` 160c61b; that is covered by the harness — oracle
+kind `raises`, corpus entry `reject-with-unprintable-alias` — not by a theorem); `raises` says when one of them overflows, `stepE` is the faithful
 outcome (`Err` or the step), and `never_raises` (Props/C17) shows `raises = false` for every message
 `from_bytes` can return and every reachable counter value.
 
